@@ -26,6 +26,7 @@ import (
 	"net/http"
 	"net/url"
 	"slices"
+	"strings"
 	"time"
 
 	"github.com/rs/zerolog"
@@ -179,6 +180,56 @@ func (e Endpoint) readResponse(resp *http.Response) ([]byte, error) {
 
 	return nil, errorchain.
 		NewWithMessagef(heimdall.ErrCommunication, "unexpected response code: %v", resp.StatusCode)
+}
+
+// References returns true if the URL or one of the header templates of the endpoint
+// contain the given string, like e.g. a reference to a template object.
+func (e Endpoint) References(value string) bool {
+	if strings.Contains(e.URL, value) {
+		return true
+	}
+
+	for _, headerValue := range e.Headers {
+		if strings.Contains(headerValue, value) {
+			return true
+		}
+	}
+
+	return false
+}
+
+// RenderedSettings returns the URL and the header values (ordered by header name) of the
+// endpoint, as they result from rendering the corresponding templates with the given renderer.
+func (e Endpoint) RenderedSettings(rndr Renderer) ([]string, error) {
+	tpl := x.IfThenElse[Renderer](rndr != nil, rndr, noopRenderer{})
+
+	endpointURL, err := tpl.Render(e.URL)
+	if err != nil {
+		return nil, errorchain.NewWithMessage(heimdall.ErrInternal,
+			"failed to render URL for the endpoint").CausedBy(err)
+	}
+
+	headerNames := make([]string, 0, len(e.Headers))
+	for k := range e.Headers {
+		headerNames = append(headerNames, k)
+	}
+
+	slices.Sort(headerNames)
+
+	settings := make([]string, 0, len(headerNames)+1)
+	settings = append(settings, endpointURL)
+
+	for _, headerName := range headerNames {
+		headerValue, err := tpl.Render(e.Headers[headerName])
+		if err != nil {
+			return nil, errorchain.NewWithMessagef(heimdall.ErrInternal,
+				"failed to render %s header value", headerName).CausedBy(err)
+		}
+
+		settings = append(settings, headerValue)
+	}
+
+	return settings, nil
 }
 
 func (e Endpoint) Hash() []byte {
